@@ -25,6 +25,7 @@ type vNode struct {
 	got     []Event
 	monch   chan Event // monitor callbacks
 	closed  bool
+	refilt  func(filter.Filter) error
 }
 
 type vTree struct {
@@ -34,12 +35,16 @@ type vTree struct {
 	pubd   []Event
 }
 
-func newTree(bufsz int) *vTree {
+func newTree(bufsz int) *vTree { return newTreeR(bufsz, true) }
+
+func newTreeR(bufsz int, ready bool) *vTree {
 	t := &vTree{root: newFakeSub(bufsz)}
 	stop := make(chan struct{})
 	t.pcache = newCache(context.Background(), vLog{}, stop, filter.Null())
 	t.root.cacheOverride = t.pcache
-	close(t.root.readych)
+	if ready {
+		close(t.root.readych)
+	}
 	t.nodes = append(t.nodes, &vNode{kind: "pub", parent: -1, pub: newPublisher(vLog{}, t.root)})
 	return t
 }
@@ -54,6 +59,34 @@ func (t *vTree) publish() {
 	out, err := t.pcache.update(ev)
 	zzverif.Assert(err == nil, "harness/parent-update")
 	zzverif.Assert(len(out) == 1, "harness/parent-update")
+	t.pubd = append(t.pubd, ev)
+	t.root.evch <- ev
+}
+
+// publishMixed publishes a create of a new object or a delete of the most
+// recently created object that still exists.
+func (t *vTree) publishMixed() {
+	var last Event
+	for _, e := range t.pubd {
+		if e.Type() == EventTypeCreate {
+			alive := true
+			for _, d := range t.pubd {
+				if d.Type() == EventTypeDelete && d.Resource() == e.Resource() {
+					alive = false
+				}
+			}
+			if alive {
+				last = e
+			}
+		}
+	}
+	if last == nil || zzverif.NondetInt("ev.kind", 0, 1) == 0 {
+		t.publish()
+		return
+	}
+	ev := NewEvent(EventTypeDelete, last.Resource())
+	out, err := t.pcache.update(ev)
+	zzverif.Assert(err == nil && len(out) == 1, "harness/parent-update")
 	t.pubd = append(t.pubd, ev)
 	t.root.evch <- ev
 }
@@ -77,12 +110,18 @@ func (t *vTree) attach(pi int, kind string, exact bool) int {
 		var fs FilterSubscription
 		fs, err = pn.pub.SubscribeWithFilter(filter.Null())
 		n.sub = fs
+		if err == nil {
+			n.refilt = fs.Refilter
+		}
 	case "pub":
 		n.pub, err = pn.pub.Clone()
 	case "fpub":
 		var fc FilterController
 		fc, err = pn.pub.CloneWithFilter(filter.Null())
 		n.pub = fc
+		if err == nil {
+			n.refilt = fc.Refilter
+		}
 	case "mon":
 		n.monch = make(chan Event, 16)
 		n.mon, err = NewMonitor(pn.pub, vMonHandler{n.monch})
@@ -196,7 +235,7 @@ func VerifC05_Tree() {
 // VerifC10_Slow: one consumer never reads; everything else keeps flowing.
 func VerifC10_Slow() {
 	B := zzverif.Param("B", 2) // scaled EventBufsiz (see registry scale_buf)
-	m := zzverif.NondetInt("m", 0, 2*B+1)
+	m := zzverif.NondetInt("m", 0, zzverif.Param("M", 2*B+1))
 	t := newTree(2*B + 2)
 	variant := zzverif.NondetInt("variant", 0, 3)
 	var stalled, healthy int
@@ -247,7 +286,7 @@ func VerifC10_Slow() {
 			<-acks
 			acked++
 		}
-		t.publish() // must never block: the root buffer is large enough, nothing downstream may push back
+		t.publishMixed() // must never block: the root buffer is large enough, nothing downstream may push back
 	}
 	zzverif.Quiesce()
 	close(stopRead)
@@ -256,7 +295,15 @@ func VerifC10_Slow() {
 	t.checkSuffix(hn, "C10/healthy")
 	// the caches stay current
 	pl := vListEnts(t.pcache, "harness/parent-list")
-	zzverif.Assert(len(pl) == m, "C10/cache-current")
+	alive := 0
+	for _, e := range t.pubd {
+		if e.Type() == EventTypeCreate {
+			alive++
+		} else {
+			alive--
+		}
+	}
+	zzverif.Assert(len(pl) == alive, "C10/cache-current")
 	// what the stalled consumer later finds is an in-order subsequence, at least its buffer's worth
 	sn := t.nodes[stalled]
 	sn.drain()
@@ -313,7 +360,8 @@ func (n *vNode) close() {
 
 // VerifC11_Close: closing one node closes exactly its subtree.
 func VerifC11_Close() {
-	t := newTree(8)
+	ready := zzverif.NondetInt("rootready", 0, 1) == 1
+	t := newTreeR(8, ready)
 	// shape: solver-chosen from a small grammar (<= 5 nodes below the root publisher)
 	kinds := []string{"sub", "fsub", "pub", "fpub", "mon"}
 	n := zzverif.NondetInt("nodes", 1, zzverif.Param("NODES", 3))
@@ -348,6 +396,18 @@ func VerifC11_Close() {
 	if when == 1 && zzverif.Param("MIDSTREAM", 1) == 0 {
 		zzverif.Assume(false)
 	}
+	if !ready && when != 0 {
+		zzverif.Assume(false) // nothing is published before the root is ready
+	}
+	// closing during a refilter: filtered nodes get a new filter just before
+	if zzverif.NondetInt("refilter", 0, 1) == 1 {
+		for _, nd := range t.nodes {
+			if nd.refilt != nil {
+				zzverif.Assert(nd.refilt(filter.Not(filter.All())) == nil, "harness/refilter") // a different filter that still accepts everything
+				zzverif.Reach("C11/refilter-before-close")
+			}
+		}
+	}
 	if when >= 1 {
 		t.publish()
 	}
@@ -378,6 +438,10 @@ func VerifC11_Close() {
 	if victim != 0 {
 		zzverif.Assert(!vClosed(t.root.Done()), "C11/others-alive/root")
 		// the survivors are fully functional: they receive a subsequent event
+		if !ready {
+			close(t.root.readych)
+			zzverif.Quiesce()
+		}
 		for _, nd := range t.nodes {
 			nd.drain()
 			nd.got = nil
